@@ -40,9 +40,9 @@ Lemma spec_levels_acc_split s : forall cur,
   end.
 Proof.
   induction s as [|c s IH]; intros cur.
-  - cbn [spec_levels_acc split_on]. rewrite app_nil_r. reflexivity.
+  - cbn [spec_levels_acc split_on]. rewrite rev_append_rev. reflexivity.
   - cbn [spec_levels_acc split_on]. destruct (c =? 47) eqn:E.
-    + rewrite app_nil_r. rewrite (IH []). cbn [rev app].
+    + rewrite rev_append_rev. rewrite (IH []). cbn [rev app].
       destruct (split_on 47 s) eqn:Es; [exfalso; eapply split_on_nonempty; eassumption|reflexivity].
     + rewrite (IH (c :: cur)).
       destruct (split_on 47 s) as [|p ps] eqn:Es; [exfalso; eapply split_on_nonempty; eassumption|].
